@@ -93,6 +93,21 @@ func (d Data) root(name string) (vals.V, bool) {
 			return vals.Int(0), true
 		}
 		return vals.Nil(), true
+	case "eroot", "*eroot", "proot":
+		f, ok := erootAlias[name]
+		if !ok {
+			return vals.V{}, false
+		}
+		if v, ok := d.slot(f); ok {
+			return v, true
+		}
+		switch f {
+		case "Pname", "Label":
+			return vals.Str(""), true
+		case "Total", "Ptotal":
+			return vals.Int(0), true
+		}
+		return vals.Nil(), true
 	case "rec", "*rec":
 		m := map[string]vals.V{}
 		for _, s := range d.Slots {
@@ -112,6 +127,26 @@ func field(v vals.V, name string) (vals.V, bool) {
 			return vals.V{}, false
 		}
 		return f, true
+	case "emb", "pemb", "*emb":
+		// Title is the struct's own field, the others are promoted from the embedded Base
+		if !embAlias[name] {
+			return vals.V{}, false
+		}
+		x, has := v.M[name]
+		switch name {
+		case "Tags":
+			return vals.V{K: "[]string", L: x.L}, true
+		case "Subs":
+			return vals.V{K: "[]emb", L: x.L}, true
+		case "ID":
+			if !has {
+				return vals.Int(0), true
+			}
+		}
+		if !has {
+			return vals.Str(""), true
+		}
+		return x, true
 	case "rec", "*rec":
 		f, ok := recAlias[name]
 		if !ok {
@@ -168,6 +203,12 @@ func elems(v vals.V) []vals.V {
 			out[i] = vals.V{K: "map", M: e.M}
 		}
 		return out
+	case "[]emb", "[]pemb", "[]*emb":
+		out := make([]vals.V, len(v.L))
+		for i, e := range v.L {
+			out[i] = vals.V{K: strings.TrimPrefix(v.K, "[]"), M: e.M}
+		}
+		return out
 	case "[]rec", "[]*rec":
 		out := make([]vals.V, len(v.L))
 		for i, e := range v.L {
@@ -180,7 +221,7 @@ func elems(v vals.V) []vals.V {
 
 func isSeq(k string) bool {
 	switch k {
-	case "[]any", "[]string", "[]int", "[]float64", "[]bool", "[3]int", "[]map", "[]rec", "[]*rec", "nil[]any":
+	case "[]any", "[]string", "[]int", "[]float64", "[]bool", "[3]int", "[]map", "[]rec", "[]*rec", "nil[]any", "[]emb", "[]pemb", "[]*emb":
 		return true
 	}
 	return false
